@@ -352,6 +352,7 @@ def mechanism_c09(scn, test):
     attempt("enum-order", set_all("enum_seed", 0), any(w.get("enum_seed") for w in ws))
     attempt("env", set_all("env", {"LC_ALL": None, "opt": ""}), any((w.get("env") or {}) != {"LC_ALL": None, "opt": ""} for w in ws))
     attempt("clock-or-random", set_all("env_seed", 0), any(w.get("env_seed") for w in ws))
+    attempt("gc-or-recursion-limit", set_all("runtime", None), any(w.get("runtime") for w in ws))
 
     def io_default(t):
         for w in t["worlds"]:
